@@ -140,6 +140,7 @@ let parse_universe (toks : string list) : node list =
     | "c" -> let s = str () in let n = str () in let k = int () in
              let args = List.init k (fun _ -> ()) |> List.map (fun () -> lex ()) in XCustom (s, n, args)
     | "s" -> let s = str () in let n = str () in XService (s, n)
+    | "u" -> XRaw (bytes_of_hex (next ()))
     | t -> failwith ("lex " ^ t)
   and lex () = lex_tok (next ()) in
   let olex () = let t = next () in if t = "-" then None else Some (lex_tok t) in
